@@ -441,19 +441,26 @@ class Gen:
                 self.macro_names.append((name, kind))
         body = []
         if self.o["bracket"]:
-            for _ in range(r.choice([1, 2])):
-                if self.o["use_sub"] and r.random() < 0.5:
-                    body.append(("sub", r.choice([None, 2, "k1"]) if self.o["use_lets"] else r.choice([None, 2]), self.stmts(1, {}, False, top=False)))
-                else:
-                    inner = [("gate", "prepare_all", [])] + self.stmts(1, {}, False, top=False) + [("gate", "measure_all", [])]
-                    if self.o["use_loops"] and r.random() < 0.3:
-                        body.append(("loop", r.choice([0, 1, 2, "k1"]) if self.o["use_lets"] else r.choice([0, 1, 2]), inner))
-                    else:
-                        body.extend(inner)
+            body = self.segments(0)
         else:
             body = self.stmts(0, {}, False, top=True)
         p["body"] = body
         return p
+
+    def segments(self, depth):
+        """prepare/measure pairs and subcircuit blocks, possibly nested in loops (two deep)"""
+        r = self.r
+        out = []
+        cnts = [0, 1, 2, "k1"] if self.o["use_lets"] else [0, 1, 2]
+        for _ in range(r.choice([1, 1, 2])):
+            x = r.random()
+            if depth < 2 and self.o["use_loops"] and x < 0.35:
+                out.append(("loop", r.choice(cnts), self.segments(depth + 1)))
+            elif self.o["use_sub"] and x < 0.7:
+                out.append(("sub", r.choice([None, 2, "k1"]) if self.o["use_lets"] else r.choice([None, 2]), self.stmts(1, {}, False, top=False)))
+            else:
+                out.extend([("gate", "prepare_all", [])] + self.stmts(1, {}, False, top=False) + [("gate", "measure_all", [])])
+        return out
 
     def qubit_arg(self, params):
         r = self.r
